@@ -45,6 +45,8 @@ val nth : nat -> 'a1 list -> 'a1 -> 'a1
 
 val flat_map : ('a1 -> 'a2 list) -> 'a1 list -> 'a2 list
 
+val existsb : ('a1 -> bool) -> 'a1 list -> bool
+
 val firstn : nat -> 'a1 list -> 'a1 list
 
 val skipn : nat -> 'a1 list -> 'a1 list
@@ -361,3 +363,5 @@ val admissible :
   (bytes -> 'a1) -> ('a1 -> 'a1 -> bool) -> 'a1 bst -> event -> bool
 
 val idh : bytes -> bytes
+
+val check_exit : bool list -> z
